@@ -34,7 +34,8 @@ type c11Scenario struct {
 	Site    string            `json:"site,omitempty"`
 }
 
-var c11Keys = []string{"甲", "乙", "丙", "丁", "A", "B", "k1", "10"}
+// keys include pairs equal up to letter case / width, which a sloppy comparison would tie
+var c11Keys = []string{"甲", "乙", "丙", "丁", "A", "a", "B", "k1", "K1", "10"}
 
 type zgen struct {
 	t    *zsim.Tape
